@@ -243,8 +243,31 @@ fn tok_net(net: &[Link]) -> String {
 }
 
 /// the table operations that turn `p` into `n` (one train's advance, or one train's rewind)
-fn diff(p: &Tbl, n: &Tbl, plan_t: &std::collections::HashMap<(u32, usize), f64>, fin_tbl: &Tbl, unknown: &mut u64) -> Result<Vec<Op>, String> {
+fn diff(p: &Tbl, n: &Tbl) -> Result<Vec<Op>, String> {
     let mut ops = vec![];
+    // field changes of one authority a -> b (same train, same arrive_entry)
+    fn fields(ops: &mut Vec<Op>, l: usize, i: usize, a: &A, b: &A) -> Result<(), String> {
+        let ch = [(a.ax, b.ax), (a.ce, b.ce), (a.cx, b.cx)];
+        for (k, (x, y)) in ch.iter().enumerate() {
+            if x != y && !(*x == INF && *y != INF) && !(*y == INF && *x != INF) { return Err(format!("field {} of {}[{}] changed {} -> {}", ["arrive_exit", "clear_entry", "clear_exit"][k], l, i, x, y)); }
+        }
+        let set = |k: usize| ch[k].0 == INF && ch[k].1 != INF;
+        let t = b.cx;
+        // early-exit branch of update_occupancy: clear_exit closes together with arrive_exit and/or clear_entry at the same instant
+        if set(2) && ((set(0) && b.ax == t) || (set(1) && b.ce == t)) {
+            if set(1) && b.ce != t { ops.push(Op::Ce { l, i, t: b.ce }); }
+            if set(0) && b.ax != t { ops.push(Op::Ax { l, i, t: b.ax }); }
+            ops.push(Op::Fin { l, i, t });
+            return Ok(());
+        }
+        for k in 0..3 {
+            let (x, y) = ch[k];
+            if x == y { continue; }
+            if x == INF { ops.push(match k { 0 => Op::Ax { l, i, t: y }, 1 => Op::Ce { l, i, t: y }, _ => Op::Cx { l, i, t: y } }); }
+            else { ops.push(match k { 0 => Op::RAx { l, i }, 1 => Op::RCe { l, i }, _ => Op::RCx { l, i } }); }
+        }
+        Ok(())
+    }
     for l in 0..p.len() {
         let (pv, nv) = (&p[l], &n[l]);
         let common = pv.len().min(nv.len());
@@ -253,45 +276,14 @@ fn diff(p: &Tbl, n: &Tbl, plan_t: &std::collections::HashMap<(u32, usize), f64>,
             let (a, b) = (pv[i], nv[i]);
             if a == b { continue; }
             if a.tr != b.tr { return Err(format!("authority {}[{}] changed train {} -> {}", l, i, a.tr, b.tr)); }
-            if a.ae != b.ae {
-                // only the early-exit branch of update_occupancy rewrites arrive_entry
-                if !(b.cx.is_finite() && a.cx == INF) { return Err(format!("arrive_entry of {}[{}] changed without a finish", l, i)); }
-                if a.ce == INF && b.ce != INF { ops.push(Op::Ce { l, i, t: b.ce }); } else if a.ce != b.ce { return Err(format!("clear_entry of {}[{}] changed {} -> {}", l, i, a.ce, b.ce)); }
-                if a.ax == INF && b.ax < b.cx { ops.push(Op::Ax { l, i, t: b.ax }); } else if a.ax != INF && a.ax != b.ax { return Err(format!("arrive_exit of {}[{}] changed {} -> {}", l, i, a.ax, b.ax)); }
-                ops.push(Op::Fin { l, i, t: b.cx });
-                continue;
-            }
-            for (k, (x, y)) in [(a.ax, b.ax), (a.ce, b.ce), (a.cx, b.cx)].iter().enumerate() {
-                if x == y { continue; }
-                if *x == INF && *y != INF { ops.push(match k { 0 => Op::Ax { l, i, t: *y }, 1 => Op::Ce { l, i, t: *y }, _ => Op::Cx { l, i, t: *y } }); }
-                else if *y == INF && *x != INF { ops.push(match k { 0 => Op::RAx { l, i }, 1 => Op::RCe { l, i }, _ => Op::RCx { l, i } }); }
-                else { return Err(format!("field {} of {}[{}] changed {} -> {}", k, l, i, x, y)); }
-            }
+            if a.ae != b.ae { return Err(format!("arrive_entry of {}[{}] changed {} -> {}", l, i, a.ae, b.ae)); }
+            fields(&mut ops, l, i, &a, &b)?;
         }
         for _ in common..pv.len() { ops.push(Op::Pop { l }); }
         for i in common..nv.len() {
             let b = nv[i];
-            // an authority that is pushed and finished inside one advance shows a rewritten arrive_entry: the plan has the real one
-            let looks_finished = b.cx.is_finite() && b.ae == b.ce.min(b.cx) && b.ax == b.ax.min(b.cx);
-            let survives = fin_tbl[l].len() > i && fin_tbl[l][i].tr == b.tr;
-            let mut t = b.ae;
-            let mut rewritten = false;
-            if looks_finished && b.cx == b.ae.max(b.cx) {
-                match plan_t.get(&(b.tr, l)) {
-                    Some(&tp) if survives && tp < b.ae => { t = tp; rewritten = true; }
-                    Some(_) => {}
-                    None => { if b.ae == b.cx { *unknown += 1; } }
-                }
-            }
-            ops.push(Op::Push { l, tr: b.tr, t, front: None });
-            if b.ce != INF { ops.push(Op::Ce { l, i, t: b.ce }); }
-            if rewritten {
-                if b.ax < b.cx { ops.push(Op::Ax { l, i, t: b.ax }); }
-                ops.push(Op::Fin { l, i, t: b.cx });
-            } else {
-                if b.ax != INF { ops.push(Op::Ax { l, i, t: b.ax }); }
-                if b.cx != INF { ops.push(Op::Cx { l, i, t: b.cx }); }
-            }
+            ops.push(Op::Push { l, tr: b.tr, t: b.ae, front: None });
+            fields(&mut ops, l, i, &A { ae: b.ae, ax: INF, ce: INF, cx: INF, tr: b.tr }, &b)?;
         }
     }
     ops.sort_by(|x, y| {
@@ -344,8 +336,16 @@ fn auth_json(l: usize, i: usize, a: &A) -> serde_json::Value {
     serde_json::json!({"link": l, "idx": i, "train": a.tr, "arrive_entry": a.ae, "arrive_exit": a.ax, "clear_entry": a.ce, "clear_exit": a.cx})
 }
 
-struct Case<'a> { sc: &'a Scen, seed: u64, id: String }
+struct Case<'a> { sc: &'a Scen, seed: u64, id: String, tainted: std::cell::Cell<bool> }
 impl<'a> Case<'a> {
+    /// findings at or after the first early exit behind a leader (known defect) are filed under dedicated clause names
+    fn fail(&self, ctx: &mut Ctx, clause: &str, wh: &str, detail: String, input: serde_json::Value) {
+        if self.tainted.get() && clause != "early_exit_behind_leader" {
+            ctx.fail("C04", &format!("{}_after_early_exit", clause), wh, format!("{} [after an early exit behind a leader in this scenario]", detail), input);
+        } else {
+            ctx.fail("C04", clause, wh, detail, input);
+        }
+    }
     fn input(&self, extra: serde_json::Value) -> serde_json::Value {
         serde_json::json!({
             "block": "c04", "scenario_seed": format!("{:#x}", self.seed), "kind": self.sc.kind, "case": self.id,
@@ -358,10 +358,10 @@ impl<'a> Case<'a> {
 }
 
 /// property clauses on one observed table; `ae_true` replaces a rewritten arrive_entry by the real front-entry time
-fn oracle_table(ctx: &mut Ctx, case: &Case, phase: &str, k: usize, t: &Tbl, ob: &[Vec<f64>], blocked: &[u32], plan_t: &std::collections::HashMap<(u32, usize), f64>) {
+fn oracle_table(ctx: &mut Ctx, case: &Case, phase: &str, k: usize, t: &Tbl, ob: &[Vec<f64>], blocked: &[u32]) {
     let net = &case.sc.net;
     let sp = spacing();
-    let fix = |l: usize, a: &A| -> A { let mut b = *a; if let Some(&tp) = plan_t.get(&(a.tr, l)) { if tp < b.ae && b.cx.is_finite() { b.ae = tp; } } b };
+    let fix = |_l: usize, a: &A| -> A { *a };
     let wh = format!("{} snapshot {} ({})", case.id, k, phase);
     for l in 1..t.len() {
         // opposing direction / declared mutual exclusion
@@ -373,7 +373,7 @@ fn oracle_table(ctx: &mut Ctx, case: &Case, phase: &str, k: usize, t: &Tbl, ob: 
                 ctx.checked("C04", clause);
                 let (a2, b2) = (fix(l, a), fix(m, b));
                 if !disjoint(&a2, &b2) {
-                    ctx.fail("C04", clause, &wh, format!("trains {} and {} hold {} links {} and {} during overlapping windows [{}, {}) and [{}, {})", a.tr, b.tr, if ci == 0 { "opposite-direction" } else { "mutually exclusive" }, l, m, a2.ae, a2.cx, b2.ae, b2.cx),
+                    case.fail(ctx, clause, &wh, format!("trains {} and {} hold {} links {} and {} during overlapping windows [{}, {}) and [{}, {})", a.tr, b.tr, if ci == 0 { "opposite-direction" } else { "mutually exclusive" }, l, m, a2.ae, a2.cx, b2.ae, b2.cx),
                         case.input(serde_json::json!({"snapshot": k, "phase": phase, "a": auth_json(l, i, a), "b": auth_json(m, j, b)})));
                 }
             } }
@@ -387,9 +387,9 @@ fn oracle_table(ctx: &mut Ctx, case: &Case, phase: &str, k: usize, t: &Tbl, ob: 
                 // not a following move if an opposing train used the segment in between
                 let between = fl < t.len() && t[fl].iter().skip(1).any(|c| a.cx <= c.ae && c.cx <= b.ae && c.ae < c.cx || a.cx <= c.ae && c.cx <= b.ae);
                 if between && a.cx <= b.ae { ctx.count("c04.headway.opposing_move_between"); }
-                else if a.cx <= b.ae { ctx.count("c04.headway.vacated_no_opposing"); ctx.fail("C04", "headway_after_vacated", &wh, format!("train {} enters link {} at {} only {} s after the tail of train {} entered it ({}), headway {} s; the leader had left the link ({}) and no opposing move lies in between", b.tr, l, b.ae, b.ae - a.ce, a.tr, a.ce, sp, a.cx),
+                else if a.cx <= b.ae { ctx.count("c04.headway.vacated_no_opposing"); case.fail(ctx, "headway_after_vacated", &wh, format!("train {} enters link {} at {} only {} s after the tail of train {} entered it ({}), headway {} s; the leader had left the link ({}) and no opposing move lies in between", b.tr, l, b.ae, b.ae - a.ce, a.tr, a.ce, sp, a.cx),
                         case.input(serde_json::json!({"snapshot": k, "phase": phase, "a": auth_json(l, i - 1, &a), "b": auth_json(l, i, &b)}))); }
-                else { ctx.fail("C04", "headway_entry", &wh, format!("train {} enters link {} at {} only {} s after the tail of train {} entered it ({}), headway {} s, leader still in the link", b.tr, l, b.ae, b.ae - a.ce, a.tr, a.ce, sp),
+                else { case.fail(ctx, "headway_entry", &wh, format!("train {} enters link {} at {} only {} s after the tail of train {} entered it ({}), headway {} s, leader still in the link", b.tr, l, b.ae, b.ae - a.ce, a.tr, a.ce, sp),
                         case.input(serde_json::json!({"snapshot": k, "phase": phase, "a": auth_json(l, i - 1, &a), "b": auth_json(l, i, &b)}))); }
             }
             // an authority closed by the early-exit branch (train terminated on this link) has arrive_exit == clear_exit: its front never left
@@ -397,16 +397,16 @@ fn oracle_table(ctx: &mut Ctx, case: &Case, phase: &str, k: usize, t: &Tbl, ob: 
             if terminated { ctx.count("c04.headway_exit.follower_terminated_on_link"); } else {
                 ctx.checked("C04", "headway_exit");
                 if !(a.cx + sp <= b.ax) {
-                    ctx.fail("C04", "headway_exit", &wh, format!("front of train {} leaves link {} at {} less than {} s after the tail of train {} left it ({})", b.tr, l, b.ax, sp, a.tr, a.cx),
+                    case.fail(ctx, "headway_exit", &wh, format!("front of train {} leaves link {} at {} less than {} s after the tail of train {} left it ({})", b.tr, l, b.ax, sp, a.tr, a.cx),
                         case.input(serde_json::json!({"snapshot": k, "phase": phase, "a": auth_json(l, i - 1, &a), "b": auth_json(l, i, &b)})));
                 }
             }
             ctx.checked("C04", "no_order_change");
             if terminated && a.cx > b.cx {
-                ctx.fail("C04", "early_exit_behind_leader", &wh, format!("train {} terminates on link {} at {} while train {} ahead of it has not cleared the link (clear_exit {}): the follower's authority is closed before the leader's, so the last authority of the link no longer carries the latest clear time and the link is released early", b.tr, l, b.cx, a.tr, a.cx),
+                case.fail(ctx, "early_exit_behind_leader", &wh, format!("train {} terminates on link {} at {} while train {} ahead of it has not cleared the link (clear_exit {}): the follower's authority is closed before the leader's, so the last authority of the link no longer carries the latest clear time and the link is released early [early exit behind a leader]", b.tr, l, b.cx, a.tr, a.cx),
                     case.input(serde_json::json!({"snapshot": k, "phase": phase, "a": auth_json(l, i - 1, &a), "b": auth_json(l, i, &b)})));
             } else if !(a.ae <= b.ae && (a.ax <= b.ax || terminated) && a.ce <= b.ce && a.cx <= b.cx) {
-                ctx.fail("C04", "no_order_change", &wh, format!("trains {} then {} entered link {} in this order but their events are not in the same order: entry {} / {}, front exit {} / {}, tail entry {} / {}, tail exit {} / {}", a.tr, b.tr, l, a.ae, b.ae, a.ax, b.ax, a.ce, b.ce, a.cx, b.cx),
+                case.fail(ctx, "no_order_change", &wh, format!("trains {} then {} entered link {} in this order but their events are not in the same order: entry {} / {}, front exit {} / {}, tail entry {} / {}, tail exit {} / {}", a.tr, b.tr, l, a.ae, b.ae, a.ax, b.ax, a.ce, b.ce, a.cx, b.cx),
                     case.input(serde_json::json!({"snapshot": k, "phase": phase, "a": auth_json(l, i - 1, &a), "b": auth_json(l, i, &b)})));
             }
         }
@@ -414,12 +414,12 @@ fn oracle_table(ctx: &mut Ctx, case: &Case, phase: &str, k: usize, t: &Tbl, ob: 
         for (i, a) in t[l].iter().enumerate().skip(1) {
             ctx.checked("C04", "authority_wellformed");
             if !(a.ae <= a.ce && a.ce <= a.cx && a.ax <= a.cx && a.ae < INF) {
-                ctx.fail("C04", "authority_wellformed", &wh, format!("authority of train {} on link {} has inconsistent times: arrive_entry {} arrive_exit {} clear_entry {} clear_exit {}", a.tr, l, a.ae, a.ax, a.ce, a.cx),
+                case.fail(ctx, "authority_wellformed", &wh, format!("authority of train {} on link {} has inconsistent times: arrive_entry {} arrive_exit {} clear_entry {} clear_exit {}", a.tr, l, a.ae, a.ax, a.ce, a.cx),
                     case.input(serde_json::json!({"snapshot": k, "phase": phase, "a": auth_json(l, i, a)})));
             }
             ctx.checked("C04", "held_flag_consistent");
             if (a.cx == INF) == (ob[l][i] == INF) {
-                ctx.fail("C04", "held_flag_consistent", &wh, format!("authority of train {} on link {}: clear_exit {} but offset_back {}", a.tr, l, a.cx, ob[l][i]), case.input(serde_json::json!({"snapshot": k, "a": auth_json(l, i, a)})));
+                case.fail(ctx, "held_flag_consistent", &wh, format!("authority of train {} on link {}: clear_exit {} but offset_back {}", a.tr, l, a.cx, ob[l][i]), case.input(serde_json::json!({"snapshot": k, "a": auth_json(l, i, a)})));
             }
         }
     }
@@ -428,10 +428,7 @@ fn oracle_table(ctx: &mut Ctx, case: &Case, phase: &str, k: usize, t: &Tbl, ob: 
         let holders: Vec<u32> = (1..t.len()).filter(|&y| conf(net, y).contains(&x)).flat_map(|y| t[y].iter().skip(1).filter(|a| a.cx == INF).map(|a| a.tr).collect::<Vec<_>>()).collect();
         ctx.checked("C04", "blocked_covers_held");
         if !holders.is_empty() && blocked[x] == 0 {
-            // released by a follower that terminated behind a train still in the link?
-            let early = (1..t.len()).filter(|&y| conf(net, y).contains(&x)).any(|y| t[y].last().map(|a| a.cx.is_finite()).unwrap_or(false) && t[y].iter().skip(1).any(|a| a.cx == INF));
-            let clause = if early { "early_exit_unblocks_held_link" } else { "blocked_covers_held" };
-            ctx.fail("C04", clause, &wh, format!("link {} is not marked blocked although train(s) {:?} hold a link that conflicts with it{}", x, holders, if early { " (the last authority of that link belongs to a train that terminated behind them)" } else { "" }), case.input(serde_json::json!({"snapshot": k, "phase": phase, "link": x})));
+            case.fail(ctx, "blocked_covers_held", &wh, format!("link {} is not marked blocked although train(s) {:?} hold a link that conflicts with it", x, holders), case.input(serde_json::json!({"snapshot": k, "phase": phase, "link": x})));
         }
         if holders.is_empty() && blocked[x] != 0 { ctx.count("c04.blocked.stale_block"); }
         else if blocked[x] != 0 && !holders.contains(&blocked[x]) { ctx.count("c04.blocked.other_train_named"); }
@@ -448,7 +445,7 @@ fn oracle_plan(ctx: &mut Ctx, case: &Case, plan: &[Vec<(usize, f64)>]) {
     for (ti, p) in plan.iter().enumerate() {
         for k in 0..p.len() {
             ctx.checked("C04", "plan_times_monotone");
-            if k + 1 < p.len() && !(p[k].1 <= p[k + 1].1) { ctx.fail("C04", "plan_times_monotone", &case.id, format!("train {} arrives at link {} at {} after arriving at the next link {} at {}", ti + 1, p[k].0, p[k].1, p[k + 1].0, p[k + 1].1), case.input(serde_json::json!({"plan": plan}))); }
+            if k + 1 < p.len() && !(p[k].1 <= p[k + 1].1) { case.fail(ctx, "plan_times_monotone", &case.id, format!("train {} arrives at link {} at {} after arriving at the next link {} at {}", ti + 1, p[k].0, p[k].1, p[k + 1].0, p[k + 1].1), case.input(serde_json::json!({"plan": plan}))); }
             occ.push((ti + 1, p[k].0, p[k].1, if k + 1 < p.len() { p[k + 1].1 } else { p[k].1 }, if k + 1 < p.len() { p[k + 1].0 } else { 0 }));
         }
     }
@@ -460,7 +457,7 @@ fn oracle_plan(ctx: &mut Ctx, case: &Case, plan: &[Vec<(usize, f64)>]) {
             let clause = if opposing { "plan_no_opposing_overlap" } else { "plan_no_lockout_overlap" };
             ctx.checked("C04", clause);
             if x.2.max(y.2) < x.3.min(y.3) {
-                ctx.fail("C04", clause, &case.id, format!("returned plan: front of train {} is on link {} during [{}, {}) while front of train {} is on the conflicting link {} during [{}, {})", x.0, x.1, x.2, x.3, y.0, y.1, y.2, y.3), case.input(serde_json::json!({"plan": plan})));
+                case.fail(ctx, clause, &case.id, format!("returned plan: front of train {} is on link {} during [{}, {}) while front of train {} is on the conflicting link {} during [{}, {})", x.0, x.1, x.2, x.3, y.0, y.1, y.2, y.3), case.input(serde_json::json!({"plan": plan})));
             }
         }
         if x.1 == y.1 {
@@ -470,11 +467,11 @@ fn oracle_plan(ctx: &mut Ctx, case: &Case, plan: &[Vec<(usize, f64)>]) {
             let between = occ.iter().any(|c| c.1 == fl && fl != 0 && a.2 <= c.2 && c.2 <= b.2);
             ctx.checked("C04", "plan_headway");
             if !between && !(a.2 + sp <= b.2) {
-                ctx.fail("C04", "plan_headway", &case.id, format!("returned plan: trains {} and {} arrive at link {} at {} and {}, less than the headway {} s apart", a.0, b.0, x.1, a.2, b.2, sp), case.input(serde_json::json!({"plan": plan})));
+                case.fail(ctx, "plan_headway", &case.id, format!("returned plan: trains {} and {} arrive at link {} at {} and {}, less than the headway {} s apart", a.0, b.0, x.1, a.2, b.2, sp), case.input(serde_json::json!({"plan": plan})));
             }
             if a.4 != 0 && a.4 == b.4 {
                 ctx.checked("C04", "plan_no_overtaking");
-                if !(a.3 <= b.3) { ctx.fail("C04", "plan_no_overtaking", &case.id, format!("returned plan: train {} enters link {} before train {} ({} < {}) but reaches the next link {} after it ({} > {})", a.0, x.1, b.0, a.2, b.2, a.4, a.3, b.3), case.input(serde_json::json!({"plan": plan}))); }
+                if !(a.3 <= b.3) { case.fail(ctx, "plan_no_overtaking", &case.id, format!("returned plan: train {} enters link {} before train {} ({} < {}) but reaches the next link {} after it ({} > {})", a.0, x.1, b.0, a.2, b.2, a.4, a.3, b.3), case.input(serde_json::json!({"plan": plan}))); }
             }
         }
     } }
@@ -484,7 +481,7 @@ fn oracle_plan(ctx: &mut Ctx, case: &Case, plan: &[Vec<(usize, f64)>]) {
 
 fn run_scen(ctx: &mut Ctx, sc: &Scen, seed: u64, verbose: bool) {
     let id = format!("scen{:x}", seed);
-    let case = Case { sc, seed, id: id.clone() };
+    let case = Case { sc, seed, id: id.clone(), tainted: std::cell::Cell::new(false) };
     ctx.count(&format!("c04.scen.{}", sc.kind.split('-').next().unwrap()));
     ctx.count(&format!("c04.trains.{}", sc.trains.len()));
     if sc.kind.contains("lock") || sc.kind.contains("diamond") { ctx.count("c04.scen.with_lockouts"); }
@@ -510,42 +507,49 @@ fn run_scen(ctx: &mut Ctx, sc: &Scen, seed: u64, verbose: bool) {
         Some(Err(e)) => { ctx.count("c04.dispatch.err"); ctx.sample("c04.dispatch_err", serde_json::json!(format!("{:?}", e).chars().take(240).collect::<String>())); None }
         None => { ctx.count("c04.dispatch.panic"); ctx.sample("c04.dispatch_panic", serde_json::json!({"seed": format!("{:#x}", seed), "msg": last_panic()})); None }
     };
-    let mut plan_t = std::collections::HashMap::new();
-    if let Some(p) = &plan { for (ti, v) in p.iter().enumerate() { for (l, t) in v { plan_t.insert(((ti + 1) as u32, *l), *t); } } }
     if verbose { dump(sc, &snaps, &plan); eprintln!("result: {}", match &res { Some(Ok(_)) => "ok".to_string(), Some(Err(e)) => format!("err {:?}", e).chars().take(600).collect(), None => format!("panic {}", last_panic()) }); }
     if snaps.is_empty() { return; }
     let n_links = sc.net.len();
-    let fin_tbl = snaps.last().unwrap().tbl.clone();
     let net_tok = tok_net(&sc.net);
     let mut prev: Tbl = vec![vec![A { ae: -INF, ax: -INF, ce: -INF, cx: -INF, tr: 0 }]; n_links];
-    let mut unknown = 0u64;
+    // first snapshot showing the known early-exit defect (a follower terminated behind a train still in the link)
+    let early = |t: &Tbl| t.iter().any(|v| (1..v.len()).any(|j| v[j].ax == v[j].cx && v[j].cx.is_finite() && (1..j).any(|i| v[i].cx > v[j].cx)));
+    let k0 = snaps.iter().position(|s| early(&s.tbl)).unwrap_or(usize::MAX);
+    if k0 != usize::MAX { ctx.count("c04.scen.with_early_exit_behind_leader"); }
     for (k, s) in snaps.iter().enumerate() {
+        case.tainted.set(k >= k0);
         ctx.count(&format!("c04.snap.{}", s.phase));
         if s.tbl == prev && k > 0 { ctx.count("c04.snap.unchanged"); }
+        else if k > k0 { ctx.count("c04.snap.step_not_replayed_after_early_exit"); }
         else {
-            match diff(&prev, &s.tbl, &plan_t, &fin_tbl, &mut unknown) {
+            ctx.checked("C04", "table_effects");
+            match diff(&prev, &s.tbl) {
                 Ok(ops) => {
                     for o in &ops { ctx.count(&format!("c04.ops.{}", o.name())); }
                     stats_gate(ctx, &sc.net, &prev, &ops);
                     let ok = raw_plan_ok(&sc.net, &s.tbl);
                     if !ok { ctx.count("c04.snap.raw_plan_not_ok"); }
+                    // the only precondition the unchanged code is known to break: a train terminating behind a leader that is still in the link
+                    let pre = !ops.iter().any(|o| matches!(o, Op::Fin { l, i, t } if s.tbl[*l][*i - 1].cx > *t));
                     ctx.op("C04", "c04_step", &format!("{} {} {} {} {}", f(spacing()), f(OVERLAP), net_tok, tok_tbl(&prev), seq(&ops, |o| o.tok())),
-                        &format!("ok T {} {}", b(ok), tok_tbl(&s.tbl)));
+                        &format!("ok {} {} {}", b(pre), b(ok), tok_tbl(&s.tbl)));
                 }
                 Err(why) => {
-                    ctx.checked("C04", "table_effects");
-                    ctx.fail("C04", "table_effects", &id, format!("snapshot {} ({}): the authority table changed in a way that is not a push/close/finish/pop/reset: {}", k, s.phase, why), case.input(serde_json::json!({"snapshot": k})));
+                    case.fail(ctx, "table_effects", &id, format!("snapshot {} ({}): the authority table changed in a way that is not a push/close/finish/pop/reset: {}", k, s.phase, why), case.input(serde_json::json!({"snapshot": k})));
                 }
             }
-            ctx.checked("C04", "table_effects");
         }
-        oracle_table(ctx, &case, &s.phase, k, &s.tbl, &s.ob, &s.blocked, &plan_t);
+        oracle_table(ctx, &case, &s.phase, k, &s.tbl, &s.ob, &s.blocked);
         prev = s.tbl.clone();
     }
-    ctx.count_n("c04.push_time_unknown", unknown);
     let last = snaps.last().unwrap();
     if last.phase == "final" {
         ctx.op("C04", "c04_final", &format!("{} {} {}", f(spacing()), net_tok, tok_tbl(&last.tbl)), &format!("ok {}", b(raw_plan_ok(&sc.net, &last.tbl))));
+        // the returned arrival times are the arrive_entry times of the final authorities
+        if let Some(p) = &plan { for (ti, v) in p.iter().enumerate() { for (l, t) in v {
+            ctx.checked("C04", "plan_matches_table");
+            if !last.tbl[*l].iter().any(|a| a.tr as usize == ti + 1 && a.ae == *t) { case.fail(ctx, "plan_matches_table", &id, format!("returned plan: train {} arrives at link {} at {} but the final authority table has no such authority", ti + 1, l, t), case.input(serde_json::json!({"plan": p}))); }
+        } } }
     }
     if let Some(p) = &plan {
         oracle_plan(ctx, &case, p);
